@@ -2,9 +2,9 @@
 from props import clihist_common as C
 from props._client_family import *  # noqa
 
-TRANSLATORS = ["http_gate", "sniff", "client_dispatch", "id_alloc"]     # id_alloc: Gen/IdAllocGen.v, how next_request_id / next_batch_id_range touch the shared id counter (Model/IdAlloc.v, theorems in Props/C12.v); client_dispatch: Gen/ClientDispatchGen.v, the dispatch of handle_recv_message read from the source (Model/ClientMgr.v interprets it)
-MODELS = ["clihist", "httpbatch"]
-BINS = {"release": ["clihist", "httpbatch", "idmt"]}
+TRANSLATORS = ["http_gate", "sniff", "client_dispatch", "id_alloc", "shutdown_order"]     # id_alloc: Gen/IdAllocGen.v, how next_request_id / next_batch_id_range touch the shared id counter (Model/IdAlloc.v, theorems in Props/C12.v); client_dispatch: Gen/ClientDispatchGen.v, the dispatch of handle_recv_message read from the source (Model/ClientMgr.v interprets it)
+MODELS = ["clihist", "httpbatch", "clifault"]
+BINS = {"release": ["clihist", "httpbatch", "idmt", "clifault"], "debug": ["clifault"]}
 
 RULE = ("histories of the real async client over a scripted mock transport vs the extracted ClientMgr model: random "
         "histories (calls, batches, subscriptions, notifications; answers in any order, duplicated, omitted, foreign ids; "
@@ -13,7 +13,9 @@ RULE = ("histories of the real async client over a scripted mock transport vs th
         "put on the wire; at most one completion per call; wire ids pairwise distinct.  distinct non-trivial = distinct output "
         "lines with >= 2 completions/stream polls.  HTTP client (engine httpbatch, single-call mode, Model/HttpBatch.v http_single): "
         "one call answered with its own id / another id of either kind / null id, result or error object, and verbatim bodies; "
-        "oracle: a result is delivered iff the response bears the call's own id (derived PartialEq: 1 and \"1\" differ)")
+        "oracle: a result is delivered iff the response bears the call's own id (derived PartialEq: 1 and \"1\" differ).  "
+        "Engine clifault, family recv-cancel-safety (a response delivered in two halves while other arms of the read task's select fire): "
+        "the call completes with exactly that response")
 
 
 def run(ctx):
@@ -34,6 +36,9 @@ def run(ctx):
     C.run_histories(ctx, hs, ["c03", "c12"])
     from props import httpbatch_common as HB
     HB.run_single(ctx)
+    # a response that arrives in two halves while the read task's other select arms fire (receive is not cancel-safe)
+    from props import clifault_common as CF
+    CF.run_cancel(ctx)
     ctx.exhaustive = False
     from props import idmt_common
     idmt_common.run(ctx)      # last (ctx.record draws from ctx.rng): thread-level stress test of the id allocator (ids in flight pairwise distinct), all facts must be zero
